@@ -6,22 +6,22 @@ Import ListNotations.
 Open Scope Z_scope.
 
 (* tools/drivers/c19_driver.py: V accepts the int atoms 0..99, rejects everything else;
-   _get_c returns 2*x+1; the factory default is atom 41, _m_default gives atom 42;
+   _get_c returns 2*x+1; the factory default is atom 41, _m_default gives atom 42, _y_default gives 43;
    an adapter chain of length n applied to atom v yields atom v + 1000*n. *)
 Definition d_vld (v : Z) : option Z := if (0 <=? v) && (v <? 100) then Some v else None.
 Definition d_getter (xv : Z) : Z := 2 * xv + 1.
 Definition d_adapt (n : nat) (v : Z) : Z := v + 1000 * Z.of_nat n.
 
-Definition mstep := step d_vld d_getter 41 42 d_adapt.
-Definition mfired := fired d_vld d_getter 41 42 d_adapt.
-Definition mtwin := twin_step d_vld d_getter 41 42 d_adapt.
+Definition mstep := step d_vld d_getter 41 42 d_adapt 43.
+Definition mfired := fired d_vld d_getter 41 42 d_adapt 43.
 
 Section Run.
   Variable vld : Z -> option Z.
   Variable getter_c : Z -> Z.
   Variable fac_value mdef_value : Z.
   Variable adapt_value : nat -> Z -> Z.
-  Let stp := step vld getter_c fac_value mdef_value adapt_value.
+  Variable ydef_value : Z.
+  Let stp := step vld getter_c fac_value mdef_value adapt_value ydef_value.
 
   (* the paired run of the model: what the law is proved about *)
   Fixpoint run2 (a tw : st) (h : list (op * plan)) : list hstep :=
@@ -29,7 +29,7 @@ Section Run.
     | [] => []
     | (o, pl) :: r =>
         let '(a', out, lg) := stp pl a o in
-        let fr := fired vld getter_c fac_value mdef_value adapt_value pl a o in
+        let fr := fired vld getter_c fac_value mdef_value adapt_value ydef_value pl a o in
         let skip := match pl with FaultCall _ _ => fr | _ => false end in
         let '(tw', outt, lgt) := if skip then (tw, Ok, []) else stp NoFault tw o in
         (o, pl, fr, mkObs out a' lg 0, mkObs outt tw' lgt 0) :: run2 a' tw' r
@@ -48,7 +48,7 @@ Definition st_equiv (a b : st) : bool :=
   Z.eqb (x a) (x b) && pair_eqb (t a) (t b) && list_eqb Z.eqb (l a) (l b)
   && dict_equiv (d a) (d b) && seteq (s a) (s b)
   && opt_eqb Z.eqb (f a) (f b) && opt_eqb Z.eqb (m a) (m b) && Z.eqb (p a) (p b)
-  && opt_eqb Z.eqb (c a) (c b) && Z.eqb (ad a) (ad b).
+  && opt_eqb Z.eqb (c a) (c b) && Z.eqb (ad a) (ad b) && opt_eqb Z.eqb (y a) (y b) && Z.eqb (ad2 a) (ad2 b).
 
 (* codes: 100*step + 1 outcome, 2 state of the faulted object, 3 handler log, 4 fired flag, 5 twin state, 6 registrations *)
 Fixpoint corr_hist (reg0 : Z) (i : Z) (a tw : st) (h : list hstep) : list Z :=
